@@ -9,7 +9,7 @@ decided at the lock (no timeout); an icontract invariant keeps the length in [0,
 import sys
 
 from rv import core, sched
-from rv.locks import DetectingLock, WouldHang
+from rv.locks import DetectingLock, WouldHang, wrap_all_locks
 from rv.vclock import VClock, patched
 
 PID = "C09"
@@ -145,8 +145,7 @@ def drive(ctx, n, cfg, seq):
     with patched(clock, tmod):
         t = M(max_operations=max_ops, max_lifetime_hours=life, idle_timeout_minutes=idle, error_threshold=err_th,
               allow_renewal=renewal, on_phase_change=lambda o, nw: hops.append((o.value, nw.value)), silent=True)
-        lock = DetectingLock(t._lock, "Telomere._lock")
-        t._lock = lock
+        wrapped = wrap_all_locks(t, DetectingLock, "Telomere")
         started_at = None
         last_activity = None
         true_ticks = 0
@@ -300,7 +299,7 @@ def drive(ctx, n, cfg, seq):
                 true_ticks = 0
                 started_at = None
                 last_activity = None
-        ctx.counters["lock_acquisitions"] = ctx.counters.get("lock_acquisitions", 0) + lock.acquisitions
+        ctx.counters["lock_acquisitions"] = ctx.counters.get("lock_acquisitions", 0) + sum(w.acquisitions for w in wrapped)
         ctx.counters["invariant_evaluations"] = _INV["n"]
         if len(phases_seen) >= 3:
             ctx.nontrivial((tuple(x[2] + ">" + x[4] for x in witness["trace"] if len(x) > 4), tuple(rets)))
@@ -347,7 +346,7 @@ def thread_case(ctx, n, rng):
         for op in pre:
             _apply(t, op)
         if wrap:
-            t._lock = sched.SchedLock(t._lock, "Telomere._lock")
+            wrap_all_locks(t, sched.SchedLock, "Telomere")
         return t
 
     # sequential outcomes: every order-preserving merge on fresh objects
